@@ -125,7 +125,8 @@ PREAMBLES = {
 }
 
 EXPECT_MISS = {"c01-any-drops-last", "c01-float-precision-off", "c01-dict-optional-wrong",
-               "c07-validator-keeps-path"}   # wrong but pure: C03 territory, not C07
+               "c07-validator-keeps-path",   # wrong but pure: C03 territory, not C07
+               "c04-tail-index"}             # only makes substitution refuse more (C12); a success still pins v
 
 
 def run(ids, with_tests=False, verif="/verif", repo="/repo"):
